@@ -486,7 +486,7 @@ def run(ctx: core.Context) -> int:
             reps.append(({'transport': 'le', 'init_own': 'random', 'adv_own': ['random'] * n, 'ext': [False] * n, 'order': list(range(n))}, script))
             if not quick:
                 reps.append(({'transport': 'le', 'init_own': 'random', 'adv_own': ['random'] * n, 'ext': [True] * n, 'order': list(reversed(range(n)))}, script))
-        for script in ('pair', 'fan_in') if quick else CLASSIC_SCRIPTS:
+        for script in ('pair', 'fan_in', 'greet_p') if quick else CLASSIC_SCRIPTS:
             n = SCRIPTS[script][0]
             reps.append(({'transport': 'classic', 'init_own': 'public', 'adv_own': ['public'] * n, 'ext': [False] * n, 'order': list(range(n))}, script))
         for cfg, script in reps:
